@@ -17,7 +17,8 @@ CHECKS = {
               "instance of the opcode) leaves the same pc, every register and every output port on both sides. By induction over retired "
               "instructions this covers programs of any length over the checked opcodes for the checked architectures; it says nothing "
               "about architectures outside the family, modes vn/hy, RAM/handshaked/floating-point/shared-object/threaded/pipelined opcodes, "
-              "multi-cycle opcodes, or hardware optimisations derived from a program (not yet checked)."),
+              "or multi-cycle opcodes. The onlydestregs hardware optimisation (the processor generated for the destination registers a program uses) is "
+              "covered for three architectures: the instruction under check then has its destination register in the recorded set."),
         note=("Trusted: z3, go/ssa, /verif/symgo, /verif/vlog (two-state semantics), cmd/bmnative. Assumes pc+1 exists in the ROM and that "
               "the simulator does not panic (out-of-range port index, division by zero). One genuine defect repaired (fix: 31ff0b2). "
               "ja and addi+i2r are kept out of the main opcode sets because the generated files do not elaborate (C18-class, see DESIGN)."),
@@ -62,11 +63,33 @@ CHECKS = {
               "every consumer: the producer never passes an r2owa the consumer has not captured (no loss), a consumer never captures one "
               "offer twice (no duplicate), captured values equal the sent ones in order. In strict mode the check reproduces the two "
               "recorded defects (replayed natively with real goroutines); with exactly those two situations assumed away z3 shows the "
-              "property for all programs within the bounds. The generated hardware side of C04 is not covered by this check."),
+              "property for all programs within the bounds; the producer-side situation is pinned to its cause (an r2owa starting on the tick after the "
+              "previous one retired) so that a received flag stuck high for another reason is still reported. Configurations with delays give "
+              "every opcode a single-delay distribution whose delay is a solver variable (SimDelayMap). HARDWARE side: the processor, ROM and "
+              "top-level Verilog the real generators write for the same machines is unrolled by /verif/vlog for T cycles with symbolic ROM "
+              "contents (bounded model checking from reset) under the same monitor; the hardware shows neither recorded defect."),
         note=("Trusted: z3, go/ssa, /verif/symgo including its goroutine model (run-until-block scheduler, non-blocking sends, two resume "
-              "orders); bounded horizon and program size; no delay distributions. Known findings: C04-double-i2rw, C04-back-to-back-r2owa."),
-        design="DESIGN.md section 3, C04 (simulator side); section 5",
+              "orders), /verif/vlog; bounded horizon and program size; simbox.DelayDistribution.GetValue stubbed by its contract (single-delay "
+              "distributions, for which the real function is deterministic). Known findings: C04-double-i2rw, C04-back-to-back-r2owa, "
+              "C04-consequence-order (simulator only)."),
+        design="DESIGN.md section 3, C04; section 5; Changes after round 0",
+        engine="symgo+vlog",
         technique="bounded symbolic model checking: go/ssa symbolic execution of the simulator for T ticks with symbolic programs, ghost-monitor assertions decided by z3, counterexamples replayed natively"),
+    "C05": dict(
+        category="translation_validation",
+        text=("Translation validation per source. The real basm front-end (parser, passes, matcher/chooser, requirement inference, "
+              "Assembler2BondMachine) is RUN NATIVELY on each source of a seeded family - it is not encodable - and for each emitted machine "
+              "z3 decides that its simulation (bondmachine.VM.Step, procbuilder.VM.Step, Opcode.Simulate executed symbolically) produces, tick "
+              "by tick, the external outputs - and at the horizon the registers - of a direct interpretation of the SOURCE TEXT (labels denote "
+              "the following instruction, execution starts at the entry label, a macro call stands for its body, mov loads the value its "
+              "literal denotes), FOR ALL values of the external inputs. Family: one CP, labels, entry, forward/backward j/jz, macros without "
+              "arguments, mov with decimal/0x/0b/0d literals, inc/dec/add/clr/cpy/nop, i2r/r2o, register sizes 8/16. The program space is "
+              "sampled (36 quick / 240 thorough sources), the input space is quantified; data sections, ramtext, fragments, several CPs, "
+              "shared objects, call/ret and templates are outside; sources the front-end rejects are counted, not failed."),
+        note=("Trusted: z3, go/ssa, /verif/symgo, cmd/bmnative, the ~150-line reference interpreter in harness/c05.go. Known findings: see "
+              "known_findings.json (C05-*)."),
+        design="DESIGN.md section 3, C05; Changes after round 0",
+        technique="translation validation: real assembler run natively per source; go/ssa symbolic execution of the simulator on the emitted machine vs. a reference interpretation of the source on symbolic inputs, equality decided by z3"),
     "C08": dict(
         category="proof",
         text=("(a) Decided on the regular languages themselves: the real matcher registry (AllMatchers after init plus one member of each "
@@ -90,7 +113,8 @@ CHECKS = {
               "value of the hidden mutable state reachable from the opcode registry as solver variables, and z3 decides three 2-safety facts "
               "for T ticks: (0) the VM state after Step is the same for two resume orders of the per-processor workers; (1) a processor's "
               "state does not depend on another, unbonded processor of its VM; (2) a simulation's state does not depend on another "
-              "simulation stepped in the same process. Goroutine interleavings finer than a processor step, GOMAXPROCS, the race "
+              "simulation stepped in the same process; (3) of two simulations of the SAME Bondmachine object with different per-opcode delay sets "
+              "(what cmd/simfinetune runs from several workers) each obeys its own delays. Goroutine interleavings finer than a processor step, GOMAXPROCS, the race "
               "detector's verdict, and the simbox/bmnumbers registries under concurrent callers are NOT decided by this check."),
         note=("Trusted: z3, go/ssa, /verif/symgo with its goroutine model; multiplications/divisions are first abstracted by uninterpreted "
               "functions (sound for 'holds'), a violated/inconclusive configuration is re-decided without abstraction; order-dependence "
@@ -104,7 +128,8 @@ CHECKS = {
               "and EVERY well-formed link table on it (solver variables), one edit (Del_input, Del_output, Add_input, Add_output, "
               "Add_processor, Del_bond, Add_bond) with a symbolic argument keeps well-formedness and every untouched bond, and an "
               "out-of-range argument is an error that changes nothing. Because the pre-state is arbitrary, histories of any length over "
-              "the covered shapes are covered; larger shapes are outside the claim. Not an unbounded proof."),
+              "the covered shapes are covered; larger shapes are outside the claim. The quick tier samples the (shape, edit) configurations, "
+              "stratified by edit kind; the thorough tier takes a larger stratified sample. Not an unbounded proof."),
         note="Trusted: z3 4.8.12, go/ssa, the /verif symbolic executor; ids assumed >= 0; Attach_benchmark_core is not covered.",
         design="DESIGN.md section 3, C10"),
     "C11": dict(
@@ -115,7 +140,8 @@ CHECKS = {
               "configuration: all 94 static opcodes, 8 dynamically created ones, all 9 shared-object kinds). z3 decides that the reloaded "
               "machine is structurally equal to the original - the equality term is generated from the Go struct types, so a field added "
               "later is compared automatically and a Jsoner/Dejsoner that forgets it fails - that re-saving gives the same JSON structure, "
-              "and that no opcode or shared object is nil after loading. encoding/json itself is taken as the identity on the *_json "
+              "and that no opcode or shared object is nil after loading - both in a fresh process state and after an earlier load of another "
+              "machine in the same process (state the loader keeps between calls). encoding/json itself is taken as the identity on the *_json "
               "structs; 'simulates identically / regenerates identical Verilog' follow from structural equality and are not re-checked."),
         note=("Trusted: z3, go/ssa, /verif/symgo; excluded fields CpID, Tag, SharedHDLOps (generation scratch); wide decimal parameters are "
               "injective tokens; front-end produced machines and FloPoCo/linear-quantiser opcodes are outside."),
@@ -155,10 +181,14 @@ CHECKS = {
         text=("Part (a) of the design, decided by SMT for every count within the stated ranges: procbuilder.Needed_bits, "
               "bondmachine.Needed_bits, bmstack.NeededBits (num <= 65536), Conproc.Opcodes_bits (symbolic opcode count <= 32768), "
               "Inputs_bits/Outputs_bits/Shared_depth (any uint8) are adequate (2^bits >= count) and minimal, and Arch.Max_word covers "
-              "every opcode's instruction length for symbolic R,N,M,L,O and equals the WordSize override. The front-ends themselves "
-              "(basm, bondgo, neuralbond, bmqsim) and their requirement inference are not encoded: the claim is about the width "
-              "arithmetic every emitted machine relies on, not about whole emitted machines."),
-        note="Trusted: z3, go/ssa, /verif/symgo. Unwinding bound 40 with unwinding assertions.",
+              "every opcode's instruction length for symbolic R,N,M,L,O and equals the WordSize override. Part (b): the real basm front-end is "
+              "RUN NATIVELY on a generated source family (it is not encodable); for every emitted processor z3 decides that one simulator step "
+              "from ANY pc inside the ROM and ANY register/port/flag state is panic-free (no index outside ROM, registers, ports, opcode list) "
+              "and leaves pc <= len(ROM); word width, opcode order, decodability and the bond graph (endpoints, link ranges, every declared "
+              "attachment present, both endpoint orders) are checked on the concrete emitted machine; a source with an operand that cannot fit "
+              "must be rejected. The source space is sampled; bondgo, neuralbond and bmqsim are outside."),
+        note=("Trusted: z3, go/ssa, /verif/symgo, cmd/bmnative. Unwinding bound 40 with unwinding assertions. Finding repaired by fix bc191a3: "
+              "basm emitted 'mov rX, v' with v > 31 as an over-long rsets5 word; it is now rejected."),
         design="DESIGN.md section 3, C16"),
 }
 
